@@ -302,6 +302,7 @@ def check(tier):
         else:
             ck.add_mutant(name, m, "massaction/int", "harness.C01", "massaction_job",
                           dict(cases=small_ms, domain="int", routes=["bare"]))
+    ck.validate = ['derivative', 'expressions']
     ck.run()
     return ck.finish(replay=REPLAY)
 
